@@ -7,6 +7,16 @@ BASELINE = "cd /repo && /venv/bin/python -m pytest -ra -q -p no:cacheprovider --
 
 # id -> (level category, engine, technique, level text, level note, design ref)
 CLAIMS = {
+    "C01": ("model_checking", "PyImport,Gen_Features,Trace_Load",
+            "TLC explores every entry module of each emitted package's import graph (PyImport.tla, CPython partial-initialisation semantics); real compile + import in a generator-less interpreter; TLA+ monitor",
+            "documents = every feature of a 62-feature catalogue alone and in pairs (TLC Gen_Features) x layouts x naming strategies; every emitted file is compiled and every module imported with the generator blocked; PyImport.tla (TLC) explores all entry modules and each predicted failure is confirmed in a fresh interpreter; Trace_Load.tla judges syntax / import / export / entry-order clauses",
+            "trusts TLC, ast-based fact extraction, the feature catalogue as the document family; PyImport is my model of CPython's import protocol (alarms only after real confirmation)",
+            "DESIGN.md section 4 C01"),
+    "C12": ("exploration", "Gen_Features,Trace_Load",
+            "TLC-enumerated feature documents; every import statement of every emitted file judged by a TLA+ closure monitor (PyImport!Closed); runtime files compared with the shipped ones",
+            "same document family as C01; for every accepted document each import statement at any depth is checked for membership in stdlib+httpx+cattrs+package+core by Trace_Load.tla, all modules are imported with the generator blocked, and the 8 runtime files are compared byte-for-byte with the tree under test (with and without post-processing)",
+            "trusts sys.stdlib_module_names, ast import extraction, the sys.meta_path blocker as model of 'generator not installed'",
+            "DESIGN.md section 4 C12"),
     "C08": ("model_checking", "CycleTracker,Trace_CycleTracker,Gen_Graphs,Gen_Chains",
             "TLC design model checking of the cycle tracker + state-graph edge replay on the real tracker + TLC trace validation of real parser runs",
             "TLC checks the tracker design (rest state under LIFO use, depth accounting, limit) exhaustively for small name sets; every edge of the dumped state graphs is replayed on the real UnifiedCycleContext; traces of the real parser over every graph with <=2 edges (9 edge kinds, all orders, 3 name sets) and chains/nestings around three depth limits are validated by a total TLA+ monitor",
